@@ -149,6 +149,7 @@ Proof.
   pose proof (inv_fresh _ HI) as F. pose proof (inv_cb _ HI) as HC.
   destruct o; try discriminate Ec; cbn [step] in H.
   - (* array submit *)
+    destruct (bad_submit_lengths _ _); [inversion H; subst; apply SF_reject; constructor; [reflexivity | reflexivity | eauto]|].
     assert (Hwf' : match entries with Some n => (length ids <= N.to_nat n)%nat | None => True end) by (destruct entries; exact Hwf).
     destruct (submit_array_AR s _ _ _ _ _ _ _ _ _ _ F P Hwf' H) as [R|(jid & ids' & tasks & A & Ht)]; [apply SF_reject; exact R|].
     eapply SF_accept; [exact F | exact A|]. intros [K1 K2] D HD.
@@ -157,7 +158,7 @@ Proof.
     + apply K1. exact Hs.
     + rewrite (K2 jid) by lia. rewrite Hnil. cbn [n_mem jt_find]. split; [discriminate | intros X; exfalso; apply X; reflexivity].
   - (* task-graph submit *)
-    destruct (bad_graph_rq _ _); [inversion H; subst; apply SF_reject; constructor; [reflexivity | reflexivity | eauto]|].
+    destruct (bad_graph_rq _ _); [inversion H; subst; apply SF_reject; constructor; [reflexivity | reflexivity | eauto]|]. destruct (dead_dep _ _ _); [inversion H; subst; apply SF_reject; constructor; [reflexivity | reflexivity | eauto]|].
     destruct (submit_graph_AR s _ _ _ _ _ _ F P H) as [R|(jid & tasks & A & Ht)]; [apply SF_reject; exact R|].
     eapply SF_accept; [exact F | exact A|]. intros _ D HD.
     eapply KD_accept_graph; [exact F | exact HC | exact A | exact Ht | exact HD].
